@@ -49,7 +49,17 @@ func c15Key(depth int, msgs []c15Msg) (command.SearchKey, c15Eval) {
 	has := func(bit int) c15Eval { return func(i int) bool { return msgs[i].flags&bit != 0 } }
 	not := func(e c15Eval) c15Eval { return func(i int) bool { return vsymNot(e(i)) } }
 	var which int
-	if vsymParam("sets") == 1 { // message-set keys only (single and two-range sets), see VerifC15Search
+	if vsymParam("nested") == 1 {
+		// NOT / OR over parenthesised lists of cheap (flag) and data (size) keys: NOT ( k k ), OR ( k k ) k
+		switch depth {
+		case 2:
+			which = 16 + vsymChoice("outer", 2) // NOT or OR
+		case 1:
+			which = 18 // list
+		default:
+			which = []int{1, 3, 9, 10}[vsymChoice("leaf", 4)]
+		}
+	} else if vsymParam("sets") == 1 { // message-set keys only (single and two-range sets), see VerifC15Search
 		which = []int{11, 12, 14, 15}[vsymChoice("setKey", 4)]
 	} else {
 		which = vsymChoice("key", total)
@@ -142,7 +152,11 @@ func c15Key(depth int, msgs []c15Msg) (command.SearchKey, c15Eval) {
 		return &command.SearchKeyNot{Key: k}, not(e)
 	case 17:
 		k1, e1 := c15Key(depth-1, msgs)
-		k2, e2 := c15Key(depth-1, msgs)
+		d2 := depth - 1
+		if vsymParam("nested") == 1 {
+			d2 = 0
+		}
+		k2, e2 := c15Key(d2, msgs)
 		return &command.SearchKeyOr{Key1: k1, Key2: k2}, func(i int) bool { return vsymOr(e1(i), e2(i)) }
 	default:
 		k1, e1 := c15Key(depth-1, msgs)
@@ -172,6 +186,10 @@ func VerifC15Search() {
 		id := w.addMessage(a, imap.UID(u), c15Flags(fl)...)
 		row := a.Row(id.InternalID)
 		row.Deleted = fl&vfDeleted != 0
+		if vsymParam("recent") == 1 && vsymChoice("recent", 2) == 1 {
+			row.Recent = true // the searching session is the first to see it: \Recent in its view
+			fl |= vfRecent
+		}
 		m := w.db.Msg(id.InternalID)
 		d := int64(0)
 		if !sets {
@@ -193,7 +211,7 @@ func VerifC15Search() {
 	}
 	key, eval := c15Key(depth, msgs)
 	keys := []command.SearchKey{key}
-	if vsymParam("sets") == 0 && vsymChoice("twoKeys", 2) == 1 { // juxtaposition = intersection
+	if vsymParam("sets") == 0 && vsymParam("nested") == 0 && vsymChoice("twoKeys", 2) == 1 { // juxtaposition = intersection
 		k2, e2 := c15Key(0, msgs)
 		keys = append(keys, k2)
 		e1 := eval
